@@ -256,7 +256,11 @@ def r3_container_agreement(ctx):
         searched = []
         # a search of the zero container = any use of that field on the path; it found the event iff the path removes from it
         ztouch = [e for e in effs if e[0] == 'c' and e[2] and receiver_field(e[2][0]) == zfield]
-        if ztouch:
+        SEARCH = {'std::iter::Iterator::position', 'std::iter::Iterator::find', 'std::iter::Iterator::any', 'std::iter::Iterator::rposition',
+                  'std::iter::Iterator::find_map', 'std::collections::VecDeque::retain', 'std::collections::VecDeque::retain_mut',
+                  'std::iter::Iterator::next'}
+        # (peeking at the front or indexing by a computed position is not a search: ids in the container are ascending, not consecutive)
+        if ztouch and any(e[1].names() & SEARCH for e in ztouch):
             zremoved = any(e[1].names() & ZREMOVERS for e in ztouch)
             said = None
             for e in ztouch:
@@ -372,6 +376,26 @@ def r4_past_guard(ctx, cfg='A'):
               {'mismatches': bad} if bad else {'table': 'time<bound: panic; time==bound: accept; time>bound: accept'})
 
 
+def _NON_WINDOW(ctx):
+    """fields of CQueue that fetch_next writes but that are not part of the scan window: the element counter and the lower bound"""
+    P = ctx.P
+    out = set()
+    q = P.fns.get(Q + '::len')
+    if q is not None and returned_field(q):
+        out.add(returned_field(q))
+    fa = P.fns.get(Q + '::add')
+    if fa is not None:
+        for s_ in fa.calls():
+            pass
+        for b in sorted(fa.reachable()):
+            for _, a in fa.guard_atoms(b):
+                if a[0] == 'cmp' and ('arg', 'time') in (a[2], a[3]):
+                    o = a[3] if a[2] == ('arg', 'time') else a[2]
+                    if o[0] == 'field':
+                        out.add(o[2])
+    return out
+
+
 def r5_fetch_skeleton(ctx):
     ctx.set_rule('C01.R5')
     f = ctx.anchor(Q + '::fetch_next')
@@ -397,6 +421,25 @@ def r5_fetch_skeleton(ctx):
         n += 1
         ip = idx_pop[-1]
         pop_recv = canon(peel(effs[ip][2][0]))
+        # the scan window (the fields selecting / bounding the current bucket) does not move once the element to return was popped:
+        # what remains of the current window must still accept insertions that are due inside it
+        outs_ = call_outcomes(f, path, decs, L + '::pop_min')
+        if not outs_ or outs_[-1][1] != 'None':
+            idxf = {x[2] for x in walk(peel(effs[ip][2][0])) if x[0] == 'field' and len(x) > 3 and str(x[3]).split('<')[0].endswith('CQueue') and not str(x[2]).isdigit()}
+            qa = ctx.P.adts.get(Q) or {}
+            idxf -= {fd['n'] for v in qa.get('variants', []) for fd in v['fields'] if 'DualLinkedList' in fd['ty']} | _NON_WINDOW(ctx)
+            # window = what indexes the bucket vector + the fields stepped together with it in the advance
+            adv_sets = []
+            for path2, o2, d2 in fn_paths(ctx, f):
+                w2 = [e[2] for e in path_effects(f, path2) if e[0] == 'w' and len(e) > 3 and str(e[3]).endswith('CQueue')]
+                if any(x in idxf for x in w2):
+                    adv_sets.append(set(w2))
+            window = set(idxf)
+            for st_ in adv_sets:
+                window |= {x for x in st_ if x not in _NON_WINDOW(ctx)}
+            late = [e for e in effs[ip + 1:] if e[0] == 'w' and e[2] in window]
+            ctx.check(not late, 'no-advance-after-pop', 'fetch_next does not advance the scan window after popping the element it returns', f.where_path(path),
+                      sorted({e[2] for e in late}))
         wr = [i for i, e in enumerate(effs[:ip]) if e[0] == 'w' and e[1] == 'set' and e[4] is not None and
               peel(e[4])[0] == 'call' and peel(e[4])[1] == L + '::front_time']
         ok = False
